@@ -38,11 +38,34 @@ struct Bufs {
 
 #[allow(clippy::too_many_arguments)]
 fn one(c: &mut Case, b: &Bufs, cfg: &DCfg, input: &[u8], gz: Option<&GzFields>, dict: Option<&[u8]>, what: &str) -> Result<(), String> {
+    one_ex(c, b, cfg, input, gz, dict, what, false)
+}
+
+/// `recycled`: the stream first compresses something else into a 1-byte buffer (output left pending, stream
+/// abandoned) and is then reset with deflateReset: the bound holds for a recycled stream as for a fresh one
+#[allow(clippy::too_many_arguments)]
+fn one_ex(c: &mut Case, b: &Bufs, cfg: &DCfg, input: &[u8], gz: Option<&GzFields>, dict: Option<&[u8]>, what: &str, recycled: bool) -> Result<(), String> {
     unsafe {
         let mut s = Strm::plain();
         let r = deflate_init::<Rs>(&mut s, cfg);
         if r != Z_OK {
             return Err(format!("deflateInit2 returned {}", rc_name(r)));
+        }
+        if recycled {
+            let junk = lcg_bytes(99, 3000);
+            let pin = b.ain.put(&junk, true);
+            let pout = b.aout.at_end(1);
+            s.z.next_in = pin;
+            s.z.avail_in = junk.len() as u32;
+            s.z.next_out = pout;
+            s.z.avail_out = 1;
+            c.exec();
+            let _ = Rs::deflate(s.p(), Z_SYNC_FLUSH);
+            let r = Rs::deflateReset(s.p());
+            if r != Z_OK {
+                Rs::deflateEnd(s.p());
+                return Err(format!("deflateReset returned {}", rc_name(r)));
+            }
         }
         let _hold;
         if let Some(f) = gz {
@@ -162,6 +185,9 @@ pub fn run(ctx: &mut Ctx) {
                             continue;
                         }
                         one(c, &b, cfg, &data, None, None, &format!("n={n} pattern={pname}"))?;
+                        if (n + pi) % 4 == 0 {
+                            one_ex(c, &b, cfg, &data, None, None, &format!("n={n} pattern={pname} on a recycled stream"), true)?;
+                        }
                     }
                 }
                 c.nontrivial();
